@@ -104,6 +104,8 @@ def known_functions():
 
 class Interp:
     """Interpret one function body into terms + events."""
+    _depth_glob = 0
+
 
     MAX_UNROLL = 16
     MAX_INLINE_DEPTH = 3
@@ -553,6 +555,19 @@ class Interp:
         q = self.pkg.resolve_name(self.mi, name)
         if q is not None:
             if name in self.mi.globals and name not in self.mi.imports:
+                lit = self.pkg.readonly_global(self.mi, name)
+                if lit is not None and self._depth_glob < 3:
+                    # an effectively constant module-level table (e.g. a dispatch tuple of functions): read through it
+                    saved = self.env
+                    self.env = {}
+                    self._depth_glob += 1
+                    try:
+                        return self.expr(lit)
+                    except AnalysisError:
+                        pass
+                    finally:
+                        self.env = saved
+                        self._depth_glob -= 1
                 return ("global", q)
             return ("mod", q)
         if name in BUILTINS or name in ("True", "False", "None"):
@@ -624,6 +639,16 @@ class Interp:
                 for kk, vv in base[1]:
                     if kk == idx:
                         return vv
+        if is_const(idx) and base[0] == "comp" and base[1] == "list" and len(base[3]) == 1 and not base[3][0][2] and isinstance(idx[1], int) and not isinstance(idx[1], bool):
+            # element k of [f(v) for v in range(...)] with constant bounds: f at the k-th value of the range
+            cv, itr, _ = base[3][0]
+            if itr[0] == "call" and itr[1] == "builtins.range" and not itr[3] and all(is_const(a) and isinstance(a[1], int) for a in itr[2]) and 1 <= len(itr[2]) <= 3:
+                try:
+                    rg = range(*[a[1] for a in itr[2]])
+                    val = rg[idx[1]]
+                    return subst(base[2], lambda y: C(val) if y == cv else None)
+                except (IndexError, ValueError):
+                    pass
         if idx[0] == "slice" and base[0] in ("tuple", "list") and all(is_const(x) for x in idx[1:]):
             lo, hi, st = (x[1] for x in idx[1:])
             try:
@@ -840,6 +865,8 @@ class Interp:
                 fname = ("dyn", t)
         else:
             fname = ("dyn", self.expr(f))
+        if isinstance(fname, tuple) and fname[1][0] == "mod" and (fname[1][1] in self.pkg.functions or not fname[1][1].startswith("PyMatterSim.")):
+            fname = fname[1][1]         # a callee read out of a constant table resolves to the function it names
         if isinstance(fname, str) and fname in self.pkg.functions and fname not in known_functions() \
                 and self._depth < self.MAX_INLINE_DEPTH and fname not in self._stack:
             inl = self._inline_call(self.pkg.functions[fname], args, kwargs, n)
